@@ -32,9 +32,9 @@ func checkC13(r *Report, known []Finding) {
 		record := func() { obs = append(obs, fmt.Sprintf("%d:%d:%d", st.Generation, len(st.Visited), cap(st.Visited))) }
 		tinv := r.Tie("BacktrackerState invariant: every stamp in the backing array <= Generation (after every call)")
 		staleReported := false
-		calls := 25000
+		calls := 70000 // more than one full period of the uint16 generation counter (one bump per call)
 		if r.Tier == "thorough" {
-			calls = 70000
+			calls = 200000
 		}
 		for i := 0; i < calls; i++ {
 			ln := []int{0, 1, 3, 10, 40, 100, 150}[rng.Intn(7)]
@@ -44,8 +44,8 @@ func checkC13(r *Report, known []Finding) {
 				ops = append(ops, fmt.Sprintf("r%d", ns*(ln+1)))
 				record()
 			} else if rng.Chance(25) {
-				// leftmost-longest mode: one reset, then one generation bump per failed start position (the haystack has no
-				// match, so every start position from at to len fails); the wrap can land inside this loop
+				// leftmost-longest mode: like leftmost-first, one reset and the table shared by all start positions (an entry is only
+				// left by a configuration explored completely without a match, whatever the start)
 				at := 0
 				if ln > 0 {
 					at = rng.Intn(ln + 1)
@@ -55,12 +55,6 @@ func checkC13(r *Report, known []Finding) {
 				st.Longest = false
 				ops = append(ops, fmt.Sprintf("r%d", ns*(ln-at+1)))
 				record()
-				for k := at; k <= ln; k++ {
-					ops = append(ops, "b")
-					obs = append(obs, "-")
-				}
-				obs[len(obs)-1] = fmt.Sprintf("%d:%d:%d", st.Generation, len(st.Visited), cap(st.Visited))
-				obs[len(obs)-(ln-at+1)-1] = "-" // the state right after the reset is not observable from outside
 			} else {
 				at := 0
 				if ln > 0 {
